@@ -260,6 +260,14 @@ def evaluate(cfg):
         dflt = electron_repulsion_integral(g)
         o.call()
         o.same("default notation is physicist", dflt, phys, key="eri-default")
+        if cfg["n"] == 2:
+            # the same shell object listed twice
+            na_ = shells[0].nfunc
+            idx = list(range(len(ref))) + list(range(na_))
+            rep = electron_repulsion_integral([g[0], g[1], g[0]], notation="chemist")
+            o.call()
+            o.cmp("electron_repulsion_integral([a, b, a]) with a the same object", rep, ref[np.ix_(idx, idx, idx, idx)], TOL,
+                  sc[np.ix_(idx, idx, idx, idx)], key="eri-repeated-shell-object")
         nb = nbasis(shells)
         T = np.array([hvec("eriT%d" % r, nb, -1, 1) for r in range(max(1, nb - 2))][:4])
         gT = electron_repulsion_integral(g, transform=T, notation="chemist")
